@@ -1,6 +1,7 @@
 from vlib.core import Check, Family
 from checks.models import ALL_MODELS, TOL_BY_MODEL, EXTRA_ARGS
 from vlib.purity import purity_step, PURITY_RULES
+from vlib.gentie import gentie_step_all   # the causality theorems quantify over ALL kernel models: every regenerated tie is an obligation here
 
 CHECK = Check(
     "C14",
@@ -8,7 +9,7 @@ CHECK = Check(
     families=[Family("KHIST", rtol=1e-9, atol_scale=1e-12, tol_by_model=TOL_BY_MODEL, args=["models=" + ",".join(ALL_MODELS), "n=24"] + EXTRA_ARGS)],
     # regenerated structural fact: no function reachable from a kernel assigns a package-level variable or calls a method of one
     # (cache objects, sync.Map, pools) — "no information survives in package-level variables" decided on the source, not only on sampled histories
-    pre_steps=[purity_step(PURITY_RULES, "C14")],
+    pre_steps=[purity_step(PURITY_RULES, "C14"), gentie_step_all],
     level="proof",
     trusted=[
         "the Lean kernel models are total functions of (parameters, states, inputs): purity is by construction there, so the property "
